@@ -854,6 +854,8 @@ class _StreamModel:
             ps = self.pieces(env, s.value)
             if any(p[0] in ('buf', 'src', 'opaque') for p in ps):
                 self.hand_out(env, ps, s)
+        if self.mode == 'R10' and isinstance(s, ast.Return) and s.value is not None and self.f.name != 'peek':
+            self.tail_check(env, self.pieces(env, s.value), s)
         if not isinstance(s, (ast.Assign, ast.AugAssign, ast.AnnAssign)) or (isinstance(s, ast.AnnAssign) and s.value is None):
             return
         for t in (s.targets if isinstance(s, ast.Assign) else [s.target]):
@@ -993,6 +995,110 @@ class _StreamModel:
                     'at every exit, loop head and call of a method that moves the buffer', ok or bool(reps), g['last'] if g['last'] is not None else self.f.name,
                     '%s the cursor is %r byte(s) from the end of the last hand-out (not provably 0)' % (at, d), self.wit, rw)
 
+    # ------------------------------------------------- R10: early hand-outs of the synchronous read-until loop
+    def vouching(self, env):
+        """Failed searches of the buffer as it is now: [(result, absolute start, absolute upper bounds)]."""
+        bufval = env.eval(_E_BUF)
+        return [(R, st, ends) for (R, bv, st, ends) in env.ghost['finds'] if self._same(bv, bufval) and _is_negative(env, R)]
+
+    def tail_check(self, env, ps, s):
+        """Bytes `ps` leave the reader (returned / appended to a sink).  When no new data was fetched on this path and a search of
+        the buffer has failed, the buffered part must end len(delimiter) - 1 bytes before the end of the searched range."""
+        g = env.ghost
+        if self.quiet or g.get('fetched') or g['lost'] or not any(p[0] in ('buf', 'opaque') for p in ps):
+            return
+        live = self.vouching(env)
+        if not live:
+            return
+        bufs = [p for p in ps if p[0] == 'buf']
+        if any(p[0] == 'opaque' for p in ps) or any(not p[3] for p in bufs):
+            self.unknown('`%s`: the bytes handed out after a failed delimiter search are not a tracked region of the buffer' % short(s, 60))
+            return
+        top = self.top if self.top is not None else s
+        for (_k, lo, hi, _x) in bufs:
+            for (R, st, ends) in live:
+                if not env.prove_le(st, lo):        # a search that started behind the first byte handed out does not vouch for it
+                    continue
+                need = hi + self.dl - Lin.const(1)
+                short_of = [] if env.prove_le(hi, lo) else [e for e in ends if not (_prove_le(env, need, e) or env._le0(need - e, 4))]
+                if short_of and any(env._le0(Lin.const(1) - fct, 4) for fct in env.facts):
+                    continue                        # the path facts contradict each other: not a feasible path
+                msg = '%r byte(s) lie between the end of the bytes handed out%s and the end of the searched range; not provably >= len(delimiter) - 1' % (
+                    (short_of[0] - hi) if short_of else 0, '' if self.depth == 0 else ' (`%s` in %s())' % (short(s, 50), self.f.name))
+                self.v.note(self.report_f, 'delimiter tail kept @%s' % unparse(top),
+                            'when the delimiter was not found in the buffered data and no new data is fetched, the bytes handed out (by the method or the '
+                            'reader methods it delegates to) stay at least len(delimiter) - 1 bytes short of the end of the searched range',
+                            not short_of, top, msg, self.wit,
+                            'BufferedReader over b"aaaa-" + b"-bbb" (chunk size 5), delimiter b"--": a bounded read_until(b"--", 4 + k) that ends inside the '
+                            'straddling delimiter returns its first byte(s) as content (multipart: two parts merged / "body part is too large" at the limit)')
+
+    def delegate(self, env, call, callee):
+        """A reader method that moves the buffer is called: follow it (two levels) with the caller's path facts and the actual
+        arguments, so that what it hands out is checked against the searches made so far (its own searches included)."""
+        g = env.ghost
+        if g.get('fetched') or g['lost'] or callee.name == 'peek' or not ({BUF, BPOS} & (self.rd.writes(callee.name) or set())):
+            return
+        if self.depth >= 2 or callee.qual in self.stack or callee.is_async:
+            if self.vouching(env):
+                self.unknown('`%s`: a hand-out more than two calls away from the search is not followed' % short(call, 50))
+            return
+        a = callee.node.args
+        if a.vararg or a.kwarg or any(isinstance(x, ast.Starred) for x in call.args) or any(k.arg is None for k in call.keywords):
+            if self.vouching(env):
+                self.unknown('`%s`: argument passing not understood' % short(call, 50))
+            return
+        e0 = env.fork()
+        names = [x.arg for x in a.posonlyargs + a.args]
+        if names and names[0] == 'self':
+            names = names[1:]
+        defaults = dict(zip(names[len(names) - len(a.defaults):], a.defaults)) if a.defaults else {}
+        defaults.update({x.arg: d for x, d in zip(a.kwonlyargs, a.kw_defaults) if d is not None})
+        names += [x.arg for x in a.kwonlyargs]
+        bound = {}
+        for nm, x in zip(names, call.args):
+            bound[nm] = e0.eval(x)
+        for k in call.keywords:
+            bound[k.arg] = e0.eval(k.value)
+        if len(call.args) > len(names) or any(k not in names for k in bound):
+            raise UnknownIdiom('%s: arguments of `%s` do not fit %s()' % (self.f.qual, short(call, 50), callee.name))
+        sub = self.subs.get(callee.qual)
+        if sub is None:
+            sub = self.subs[callee.qual] = _StreamModel(self.run, self.v, self.rd, callee, 'R10')
+            sub.depth, sub.report_f, sub.stack, sub.subs = self.depth + 1, self.report_f, self.stack + (callee.qual,), self.subs
+        sub.quiet, sub.wit, sub.top = False, self.wit, self.top if self.top is not None else call
+        ce = e0.fork()
+        ce.on_call = sub.on_call
+        ce.vars = {k: val for k, val in e0.vars.items() if k.startswith('self.')}
+        for nm in names:
+            if nm in bound:
+                ce.vars[nm] = bound[nm]
+            elif nm in defaults:
+                ce.vars[nm] = ce.eval(defaults[nm])
+            else:
+                raise UnknownIdiom('%s: `%s` leaves parameter %s of %s() unbound' % (self.f.qual, short(call, 50), nm, callee.name))
+        ce.ghost.update(regions={}, srcnames=frozenset())
+        ce.log = []
+        ccfg, heads, edge_ok = sub.cfg, set(loop_heads(sub.cfg)), local_edges(sub.cfg)
+
+        def done(e):
+            return bool(e.ghost['lost'] or e.ghost.get('fetched') or any(k == 'raise' for k, _v, _n in e.log))
+
+        def walk(nid, envs, seen):
+            for (y, l) in ccfg.succ[nid]:
+                if not edge_ok(nid, y, l):
+                    continue
+                nxt = [e2 for e in envs for e2 in _run_steps(e.fork(), ccfg, [(nid, l)], sub.on_node)]
+                nxt = [e for e in nxt if not done(e)]       # nothing is decided behind a fetch / a callee that moved the buffer
+                if not nxt or y in (ccfg.exit, ccfg.xexit) or not ccfg.succ[y]:
+                    continue
+                if y in heads or y in seen:
+                    if any(sub.vouching(e) for e in nxt):
+                        sub.unknown('a loop of %s() is entered after a failed delimiter search: hand-outs in it are not followed' % callee.name)
+                    continue
+                walk(y, nxt, seen | {y})
+
+        walk(ccfg.entry, [ce], {ccfg.entry})
+
     def on_node(self, env, n, label):
         if label == 'exc':
             return
@@ -1016,9 +1122,16 @@ class _StreamModel:
                     self.hand_out(env, argp[0], call)
             elif any(p[0] in ('buf', 'opaque') for ps in argp for p in ps):
                 self.lose(env, 'buffered bytes are passed to `%s`: whether that hands them out is not modelled' % short(call, 50))
+        if self.mode == 'R10' and isinstance(fn, ast.Attribute) and fn.attr in _SINKS and dotted(fn.value) != 'self' and len(call.args) == 1 and not call.keywords:
+            self.tail_check(env, self.pieces(env, call.args[0]), call)
         if not isinstance(fn, ast.Attribute):
             return None
         recv_self = dotted(fn.value) == 'self'
+        if self.mode == 'R10' and recv_self and fn.attr in self.rd.methods:
+            if fn.attr in self.src_methods:
+                env.ghost['fetched'] = True                    # new data: what follows is justified otherwise (end of stream, border search)
+            elif not self.quiet:
+                self.delegate(env, call, self.rd.methods[fn.attr])
         if not recv_self and call.args and isinstance(call.args[0], (ast.Name, ast.Attribute)):
             a0 = env.eval(call.args[0])
             if isinstance(a0, Lin) and a0.lone() == ('v', DELIM):
@@ -1106,6 +1219,10 @@ class _StreamModel:
             if not extra or understood(extra[0]):
                 covered = (origin + extra[0] if extra else origin, tuple(ends))
         if covered is not None:
+            if self.mode == 'R10':      # the same search of the same (immutable) bytes has the same result
+                for (R0, bv, st, es) in g['finds']:
+                    if self._same(bv, env.eval(_E_BUF)) and st == covered[0] and tuple(es) == tuple(covered[1]):
+                        return R0
             g['finds'] = g['finds'] + ((R, env.eval(_E_BUF), covered[0], covered[1]),)
         if self.mode == 'R6' and not self.quiet and cur is not None:
             for st in starts:
@@ -1321,6 +1438,34 @@ def r9_sync_cursor_conservation(run):
     v.flush()
 
 
+def r10_sync_delimiter_not_split(run):
+    """(B, synchronous reader; shared with C13 as its R6) "enough data is buffered, stop refilling" keeps a delimiter tail."""
+    v = Verdicts(run)
+    run.assume(_MODEL_ASSUMPTION)
+    run.assume('C14 R10: decided for the paths of the read-until loop that fetch no new data between the loop head and the hand-out (after a fetch the '
+               'hand-out is justified by the end of the stream / the search across the chunk border: not decided); what a reader method returns or '
+               'appends to a sink reaches the application (R9); peek() returns without consuming; an attribute stored only by the constructor, a '
+               'never-stored parameter and a local assigned once in front of the loop keep their values in the loop')
+    rd = Reader(run.project, SYNC)
+    require_attrs(run.project, SYNC, [SOURCE_FN])
+    todo = []
+    for name, f in sorted(rd.methods.items()):
+        if DELIM not in f.params():
+            continue
+        loops = [x for x in walk_self(f.node) if isinstance(x, (ast.While, ast.For))]
+        in_loops = [c for lp in loops for c in ast.walk(lp) if isinstance(c, ast.Call)]
+        src = {n for n, g in rd.methods.items() if n != '__init__' and any(
+            isinstance(x, ast.Attribute) and dotted(x) == SOURCE_FN and isinstance(x.ctx, ast.Load) for x in walk_self(g.node))}
+        fetches = any(isinstance(c.func, ast.Attribute) and dotted(c.func.value) == 'self' and c.func.attr in src for c in in_loops)
+        if fetches and any(_is_delim_find(c) for c in in_loops):
+            todo.append(f)
+    if not todo:
+        raise AnchorError('%s: no method searches the buffer for a %s in a loop that refills it from the source' % (SYNC, DELIM))
+    for f in todo:
+        _StreamModel(run, v, rd, f, 'R10').execute()
+    v.flush()
+
+
 def check(run):
     run.assume('C14: only falcon/util/reader.py and falcon/asgi/reader.py are decided; falcon/cyutil/reader.pyx (the compiled twin) is not analysed')
     run.extra['twin_drift_note'] = 'falcon/cyutil/reader.pyx is a hand-maintained Cython twin of falcon/util/reader.py; not parsed, not compared'
@@ -1333,3 +1478,4 @@ def check(run):
     run.rule('R7', r7_delimiter_not_split, 'async reader: a size-capped early hand-out never splits a delimiter', floor=1)
     run.rule('R8', r8_cursor_conservation, 'async reader: bytes yielded from the buffer are exactly the bytes the cursor moves over', floor=9)
     run.rule('R9', r9_sync_cursor_conservation, 'sync reader: the cursor stands behind the last byte handed out after every replacement / trim / return', floor=8)
+    run.rule('R10', r10_sync_delimiter_not_split, 'sync reader: "enough is buffered" after a failed search keeps len(delimiter) - 1 bytes back', floor=1)
